@@ -183,6 +183,13 @@ def run_case(case, ctx):
         ctx.nontriv(dict(desc, seed=seed))
     rtol = 1e-6 if dt == "float64" else 2e-2
 
+    # the same regression problem with X and Y recorded in other units: loadings are unit vectors whatever the units
+    if dt == "float64" and rs.rand() < 0.15:
+        ux, uy = float(gen.choice(rs, [1e-8, 1e4])), float(gen.choice(rs, [1e-8, 1e4]))
+        X, Xnew, Y = X * ux, Xnew * ux, Y * uy
+        desc["units"] = [ux, uy]
+        ctx.count("plsr_other_units")
+
     def fit(Xa, Ya):
         m = CP_PLSR(n_components=ncomp, tol=1e-12 if dt == "float64" else 1e-6, n_iter_max=300, random_state=seed)
         m.fit(Xa.copy(), Ya.copy())
@@ -216,6 +223,21 @@ def run_case(case, ctx):
         if ty.shape != U0.shape or np.max(np.abs(ty - U0)) > 100 * rtol * scale_U:
             viol("transform-equals-scores", "Y-scores-call-%d" % (k + 1), "Y scores of transform(X_train, Y_train) (call %d) differ from Y_factors[0] by %.3g (scale %.3g)" % (k + 1, np.max(np.abs(ty - U0)), scale_U), desc)
             return
+    # fit_transform hands out the scores; the caller may do with them what it likes (standardise them in place for a plot): the model's own
+    # scores still are what transform(X_train) returns
+    ctx.count("clause/plsr-fit_transform-result-edited")
+    mft = CP_PLSR(n_components=ncomp, tol=1e-12 if dt == "float64" else 1e-6, n_iter_max=300, random_state=seed)
+    res = mft.fit_transform(X.copy(), Y.copy())
+    for arr_ in (res if isinstance(res, (tuple, list)) else [res]):
+        arr_ = np.asarray(arr_)
+        if arr_.flags.writeable:
+            arr_ *= 0.0
+            arr_ += 7.0
+    Tm, Tt2 = ref.hp(mft.X_factors[0]), ref.hp(mft.transform(X.copy()))
+    if Tm.shape != Tt2.shape or np.max(np.abs(Tm - Tt2)) > 100 * rtol * (np.max(np.abs(Tt2)) + 1e-300):
+        viol("transform-equals-scores", "after-editing-fit_transform-result", "after the caller edited the arrays returned by fit_transform in place, X_factors[0] differs from transform(X_train) by %.3g" % (
+            np.max(np.abs(Tm - Tt2)) if Tm.shape == Tt2.shape else float("nan")), desc)
+        return
     # unit-norm loadings
     ctx.count("clause/plsr-unit-loadings")
     for nm, f in [("X mode %d" % k, m.X_factors[k]) for k in range(1, len(m.X_factors))] + [("Y", m.Y_factors[1])]:
